@@ -110,12 +110,17 @@ CORPUS = ['(python_version >= "3.8" or os_name == "nt") and (sys_platform == "li
           'python_version >= "3.8" and python_version < "3.9" or python_version >= "3.10" and sys_platform == "linux"']
 
 
-def run(ctx: core.Ctx, items: list[tuple[str, str | None]], stream: str, envs: list[dict[str, Any]] | None = None) -> None:
+def run(ctx: core.Ctx, items: list[tuple[str, str | None]], stream: str, envs: list[dict[str, Any]] | None = None,
+        keep_caches: bool = False) -> None:
     envs = envs or G.env_grid(ctx.rng, 22)
     cases: list[dict[str, Any]] = []
-    for a, b in items:
-        cases += cases_for(a, b)
-    recs = E.run_cases(ctx, cases, stream, envs)
+    for i, (a, b) in enumerate(items):
+        cs = cases_for(a, b)
+        if keep_caches:     # the calls made before this one in the same process, kept in the witness for the replay
+            for c in cs:
+                c["history"] = [list(x) for x in items[max(0, i - 4):i]]
+        cases += cs
+    recs = E.run_cases(ctx, cases, stream, envs, keep_caches=keep_caches)
     oracle(ctx, recs, envs)
 
 
@@ -145,6 +150,9 @@ def correspondence(ctx: core.Ctx) -> None:
     items = gen_items(ctx, ctx.budget(220, 9000))
     for k in range(0, len(items), 300):
         run(ctx, items[k:k + 300], "gen")
+    hist = G.history_items(ctx.rng, ctx.budget(150, 4000))
+    for k in range(0, len(hist), 300):
+        run(ctx, hist[k:k + 300], "history", keep_caches=True)
 
 
 def search(ctx: core.Ctx) -> None:
@@ -168,5 +176,6 @@ def replay(ctx: core.Ctx, payload: dict[str, Any]) -> bool:
     w = payload.get("witness", payload)
     before = len(ctx.violations)
     envs = [w["env"]] if "env" in w else G.envs()
-    run(ctx, [(w["a"], w.get("b"))], "replay", envs=envs)
+    hist = [(x[0], x[1]) for x in w.get("history", [])]
+    run(ctx, hist + [(w["a"], w.get("b"))], "replay", envs=envs, keep_caches=bool(hist))
     return len(ctx.violations) > before
